@@ -360,20 +360,20 @@ Pretty(x, ind) ==
 NUL == "<NUL>"     \* the harness writes byte 0 of stdout as this marker
 Display(x, d) == (IF x.t = "str" /\ d.raw THEN CatStr(x.s) ELSE IF d.compact THEN Compact(x) ELSE Pretty(x, 0)) \o d.join
 
-\* input kinds: good A B C O T(no trailing newline); U undecodable; M missing; D directory; E empty file
+\* input kinds: good A B C O T(no trailing newline); U undecodable text; E empty file (undecodable); M missing; D directory
 GoodKinds == {"A", "B", "C", "O", "T"}
-AllKinds == GoodKinds \cup {"U", "M", "D"}
+AllKinds == GoodKinds \cup {"U", "E", "M", "D"}
 KindValue(k) == CASE k = "A" -> JNum(1) [] k = "B" -> JStr(<<"s">>) [] k = "C" -> JArr(<<JNum(1), JNum(2)>>)
                   [] k = "O" -> JObj1("a", JStr(<<"x">>)) [] k = "T" -> JNum(7) [] OTHER -> JNull
 KindContent(k) == CASE k = "A" -> <<"1", "\n">> [] k = "B" -> <<"\"", "s", "\"", "\n">> [] k = "C" -> <<"[1,2]", "\n">>
                     [] k = "O" -> <<"{", "\"", "a", "\"", ":", "\"", "x", "\"", "}", "\n">> [] k = "T" -> <<"7">>
                     [] k = "U" -> <<"garbage", "\n">> [] OTHER -> <<>>
 FileKind(name) == CASE name = "a.json" -> "A" [] name = "b.json" -> "B" [] name = "c.json" -> "C" [] name = "o.json" -> "O"
-                    [] name = "t.json" -> "T" [] name = "bad.bin" -> "U" [] name = "dir" -> "D"
+                    [] name = "t.json" -> "T" [] name = "bad.bin" -> "U" [] name = "empty.txt" -> "E" [] name = "dir" -> "D"
                     [] name = "raw.txt" -> "R" [] name = "id.jq" -> "P" [] name = "fail.jq" -> "P"
                     [] OTHER -> "M"
 KindFile(k) == CASE k = "A" -> "a.json" [] k = "B" -> "b.json" [] k = "C" -> "c.json" [] k = "O" -> "o.json" [] k = "T" -> "t.json"
-                 [] k = "U" -> "bad.bin" [] k = "D" -> "dir" [] OTHER -> "missing"
+                 [] k = "U" -> "bad.bin" [] k = "E" -> "empty.txt" [] k = "D" -> "dir" [] OTHER -> "missing"
 Readable(name) == FileKind(name) \notin {"M", "D"}
 In(name, kind) == [name |-> name, kind |-> kind]
 
@@ -442,7 +442,7 @@ OptEval(p, rest, stdinKind) ==
                     \/ \E i \in 1 .. Len(PairsOf(p, "argjson")) : ~JsonTextKnown(PairsOf(p, "argjson")[i][2])
                     \/ (hasFile /\ Readable(exprFile) /\ ProgFileTag(exprFile) = "unknown")
                     \/ \E n \in {"show_help", "show_version", "repl", "color_output", "argdecode", "unicode_output"} : HasF(p, n)
-                    \/ (group = "json" /\ \E i \in 1 .. Len(inputs) : inputs[i].kind = "U")    \* -d FORMAT returns a partial tree
+                    \/ (group = "json" /\ \E i \in 1 .. Len(inputs) : inputs[i].kind \in {"U", "E"})    \* -d FORMAT returns a partial tree
         mode     == IF HasF(p, "string_input") THEN (IF HasF(p, "slurp") THEN "rawslurp" ELSE "raw")
                     ELSE IF HasF(p, "slurp") THEN "slurp" ELSE "each"
     IN [ st     |-> IF argErr THEN "argerr" ELSE IF unknown THEN "unknown" ELSE "ok",
@@ -586,7 +586,8 @@ Stream(cfg) ==
     IF IsRaw(cfg) THEN
         LET cs == Flatten([k \in 1 .. Len(gi) |-> KindContent(cfg.inputs[gi[k]].kind)]) IN
         IF cfg.mode = "rawslurp" THEN <<JStr(cs)>>
-        ELSE IF Len(gi) = 0 THEN <<>> ELSE [k \in 1 .. Len(LinesOf(cs)) |-> JStr(LinesOf(cs)[k])]
+        ELSE IF Len(cs) = 0 THEN <<>>            \* no text, no lines (jq); as built: one empty line if any file was readable
+        ELSE [k \in 1 .. Len(LinesOf(cs)) |-> JStr(LinesOf(cs)[k])]
     ELSE [k \in 1 .. Len(gi) |-> KindValue(cfg.inputs[gi[k]].kind)]
 \* what the program sees: a sequence of top-level values
 TopValues(cfg) ==
@@ -615,6 +616,10 @@ Req(cfg) ==
                        ELSE IF InputsRead(cfg) /\ ~IsRaw(cfg) /\ \E k \in 1 .. Len(cfg.inputs) : Undecodable(cfg.inputs[k]) THEN 4
                        ELSE IF \E k \in 1 .. Len(ev) : ev[k].err THEN 5
                        ELSE 0 ]
+
+\* the one known difference between the machine as built and Req: --raw-input when all readable inputs are empty
+EmptyRawText(cfg) == /\ cfg.mode = "raw" /\ InputsRead(cfg) /\ GoodIdx(cfg) # <<>>
+                     /\ \A k \in 1 .. Len(cfg.inputs) : OpenFails(cfg.inputs[k]) \/ KindContent(cfg.inputs[k].kind) = <<>>
 
 \* Independence, in the property's own words: with a program that treats every input on its own, the output is the
 \* concatenation of the outputs of the good inputs run alone, in argument order.  Solo(cfg, i) is the requirement for input i alone.
